@@ -77,8 +77,8 @@ var userSources = map[string]bool{
 
 // Ctx is the per-run context shared by the rules.
 type Ctx struct {
-	P   *Prog
-	R   *Report
+	P    *Prog
+	R    *Report
 	Tier string
 
 	userIface *types.Interface
